@@ -5,7 +5,7 @@ PROP = "C04"
 
 
 def ipcbed():
-    return build.harness("ipcbed", "asan", ["ipcbed_main.c", "ipcbed_server.c", "vp.c"], wraps=["random", "srand"])
+    return build.harness("ipcbed", "asan", ["ipcbed_main.c", "ipcbed_server.c", "vp.c", "vpguard.c"], wraps=["random", "srand", "mmap", "munmap"])
 
 
 STAGE_LIST = [simple.Stage("c04", ipcbed, ["--mode", "c04"], quick=320, thorough=20000, timeout=1200, chunk=2)]
